@@ -353,6 +353,8 @@ def bind_check_precedes_lookup(f):
         if isinstance(st, ast.If) and "not in allowed_types" in ast.unparse(st.test) and any(isinstance(x, ast.Raise) for x in st.body):
             idx_check = i
         if any(isinstance(n, ast.Call) and isinstance(n.func, ast.Attribute) and n.func.attr == "_lookup_named_entity" for n in ast.walk(st)):
+            if isinstance(st, ast.If) and "value.data == 'identifier_const'" in ast.unparse(st.test) and not st.orelse:
+                continue        # this lookup is itself guarded by the label test (forwarded bare identifier)
             idx_bind = i if idx_bind is None else idx_bind
     return idx_check is not None and idx_bind is not None and idx_check < idx_bind
 
@@ -990,3 +992,37 @@ _run5 = run
 def run(ctx, rep, tier):
     _run5(ctx, rep, tier)
     _evaluator_family(ctx, rep, tier)
+
+
+# ---------------------------------------------------------------------------------------------------------------- C18.o
+def _empty_statement_sequences(ctx, rep, tier):
+    """C18.o: a statement sequence can be empty (grammar: `statement*` positions; and any sequence whose statements are calls of an empty macro).
+    _parse_stmt_seq then yields None. The producers and consumers of that None are enumerated: sequencing skips None statements, macro expansion
+    does not tag None, and every construct that converts its body refuses a missing body with a diagnosed error or is built to carry none."""
+    model, g = ctx.model, ctx.grammar
+    rep.rule("C18.o", "an empty statement sequence (None) is skipped when sequencing, not tagged by macro expansion, and refused or tolerated by every construct holding a body")
+    stmt_labels = g.labels("statement")
+    def has_stmts(exp):
+        return any(el["items"] & stmt_labels for el in exp["seq"])
+    star = sorted(lab for lab in g.all_labels() if any(has_stmts(e) for e in g.children_of(lab)) and any(not has_stmts(e) for e in g.children_of(lab)))
+    rep.check(set(star) >= {"macro_decl"}, "C18.o", "grammar", f"constructs whose statement list may be empty: {star}", "grammar no longer allows an empty macro body: re-derive this rule")
+    rep.check(model.has("ParseCtx._parse_stmt_seq", "node = self._parse_stmt(stmt)\nif node is None:\n    continue"), "C18.o", "ParseCtx._parse_stmt_seq",
+              "a statement that expands to nothing is skipped before it is tagged / linked", "`macro nothing() { }` called anywhere: the None it expands to is tagged and linked like a node (TypeError / AttributeError)")
+    rep.check(model.has("ParseCtx._parse_macro_call", "node = self._parse_stmt_seq(macro.parse_tree)\nif node is not None:\n    ProgramData.imbue(node, DTAG.PARENT, macro)"), "C18.o", "ParseCtx._parse_macro_call",
+              "the expansion of an empty body is not tagged", "imbue() of the None an empty macro body expands to: TypeError (cannot create weak reference to NoneType)")
+    # constructs with a body: convert() refuses None (diagnosed) before using it
+    for cls, attr, msg in (("OptionalNode", "sub_contents", "Empty optional body"), ("LoopNode", "child_node", "Empty loop body"), ("TryExceptNode", "body", "Empty try-except body"), ("ForeachNode", "body", "Empty foreach body")):
+        q = f"{cls}.convert"
+        fn = model.func(q)
+        first = strip_doc(fn.body)[0]
+        ok = isinstance(first, ast.If) and re.fullmatch(r"self\.\w+ is None", ast.unparse(first.test)) is not None and isinstance(first.body[-1], ast.Raise) and \
+            model.is_subclass(raised_class(first.body[-1]) or "", "NMFUError")
+        rep.check(ok, "C18.o", q, f"{cls}: a missing body is refused first ({msg})", f"{cls}.convert uses its body before testing it for None: a body consisting of calls of an empty macro is an AttributeError")
+
+
+_run6 = run
+
+
+def run(ctx, rep, tier):
+    _run6(ctx, rep, tier)
+    _empty_statement_sequences(ctx, rep, tier)
